@@ -227,6 +227,47 @@ def pipeline(ctx, case, sh, name, method, kmax, res, warns, err, info):
                      [[str(c) for c in s] if s is not None else None for s in val])
 
 
+def stopping_rule(ctx, case, shape):
+    """fixed-point iteration in the Real semiring stops at the FIRST iterate that is within `tol` of its predecessor in every cell,
+    absolutely (`MultiTensor.allclose`: atol=tol, rtol=0), or warns after kmax iterations: the driver-loop model run with that tolerant
+    comparison (`P.sumProductsTol`, exact rational iterates) must stop at the same iterate — same values, same warning flag.  Runs
+    whose stopping decision is borderline (the model decides differently for tol(1 - 1e-6) and tol(1 + 1e-6)) are skipped."""
+    from fractions import Fraction
+    for tol, kmax in ((1e-2, 40), (1e-3, 40)):
+        fgg, info = semgen.build(shape, 'real', torch.float64)
+        res, warns, err = call(fgg, method='fixed-point', semiring=semgen.semiring_of('real', torch.float64), kmax=kmax, tol=tol)
+        if err is not None:
+            continue        # reported by the main stream
+        T = Fraction(tol)
+        reps = ctx.driver.ask_many([f'P.sumProductsTol {gen.enc_shape(shape)} fixed-point {kmax} {T * f}' for f in (Fraction(999999, 1000000), Fraction(1000001, 1000000))])
+        if any(isinstance(r, Exception) for r in reps) or reps[0] != reps[1] or not reps[0].startswith('ok'):
+            ctx.count('real.stopping-rule.borderline-or-unmodelled-skipped')
+            continue
+        t = Toks(reps[0]); t.next()
+        mwarn, unmod = t.bool(), t.bool()
+        if unmod:
+            ctx.count('real.stopping-rule.borderline-or-unmodelled-skipped')
+            continue
+        model = semgen.parse_val(t)
+        ctx.evaluations += 1
+        ctx.count('real.stopping-rule.' + ('warned' if mwarn else 'stopped'))
+        cfg = dict(semiring='real', method='fixed-point', kmax=kmax, tol=tol)
+        if bool(warns) != mwarn:
+            ctx.fail(f'fixed-point (tol={tol}, kmax={kmax}): the library ' + ('warns' if warns else 'does not warn') + ', the iteration with the absolute stopping test ' +
+                     ('runs out of budget' if mwarn else 'stops within the budget'), dict(case, config=cfg), bool(warns), mwarn, tags=['stopping-rule', 'warning'])
+            continue
+        out = [semgen.dense_list(res[x]) if x in res else None for x in info['XL']]
+        bad = False
+        for o, m in zip(out, model):
+            if o is None or m is None:
+                bad = bad or not ((o is None or all(c == 0 for c in o)) and (m is None or all(c == 0 for c in m)))
+            else:
+                bad = bad or len(o) != len(m) or not all((isinstance(c, float) and a == c) or (not isinstance(c, float) and abs(a - float(c)) <= 1e-9 * max(1.0, abs(float(c)))) for a, c in zip(o, m))
+        if bad:
+            ctx.fail(f'fixed-point (tol={tol}, kmax={kmax}) does not return the first iterate within tol (absolute, every cell) of its predecessor',
+                     dict(case, config=cfg), out, [None if m is None else [str(c) for c in m] for m in model], tags=['stopping-rule', 'value'])
+
+
 def run_real(ctx, case, shape, linear):
     """Real and Log against a certified enclosure"""
     zero = enc_list([None] * len(shape['nts']), lambda _: 'none')
@@ -268,6 +309,7 @@ def run_real(ctx, case, shape, linear):
         ctx.count('real.no-certified-upper-bound')
         return
     ctx.count('real.enclosed')
+    stopping_rule(ctx, case, shape)
     width = max(h - float(l) for vl, vh in zip(lo, hi) if vl is not None for l, h in zip(vl, vh))
     for name in ('real', 'log'):
         fgg, info = semgen.build(shape, name, torch.float64)
